@@ -22,6 +22,12 @@ type c35Case struct {
 	Text string `json:"text,omitempty"` // same, for the reader (lossy if invalid UTF-8)
 	V    []byte `json:"variant,omitempty"`
 	VTxt string `json:"variant_text,omitempty"`
+	// Odd: the generator put a keyword where an identifier belongs (a topic or alias
+	// named from/join/on/as/select, a missing FROM ...). Such a text is not a valid
+	// query; Parse may read one of its keywords as an alias, whose case is kept by
+	// design, so the keyword-case clause (stated for valid queries) is not applied to
+	// it. The no-panic clause and the model comparison still are.
+	Odd bool `json:"odd,omitempty"`
 }
 
 type c35Obs struct {
@@ -197,6 +203,7 @@ type c35Builder struct {
 	segs []c35Seg
 	// how wild: 0 = plain ASCII single spaces, 1 = odd white space, 2 = special runes in identifiers, 3 = + invalid bytes
 	wild int
+	odd  bool // a keyword was used as an identifier or a mandatory clause was left out
 }
 
 func (b *c35Builder) sp() {
@@ -229,8 +236,22 @@ func (b *c35Builder) junk() string {
 	}
 	return s
 }
+func c35KeywordName(s string) bool {
+	switch s {
+	case "from", "join", "select", "on", "as":
+		return true
+	}
+	return false
+}
+
 func (b *c35Builder) ident(base []string) string {
 	s := base[b.r.Intn(len(base))]
+	for k := 0; k < 3 && c35KeywordName(s) && !b.r.Chance(15); k++ {
+		s = base[b.r.Intn(len(base))]
+	}
+	if c35KeywordName(s) {
+		b.odd = true
+	}
 	if b.wild >= 2 && b.r.Chance(30) {
 		switch b.r.Intn(3) {
 		case 0:
@@ -283,6 +304,7 @@ func (b *c35Builder) selectStmt() {
 	b.kw("select")
 	if b.r.Chance(8) {
 		// no column list
+		b.odd = true
 	} else {
 		b.sp()
 		n := b.r.Range(1, 3)
@@ -305,6 +327,8 @@ func (b *c35Builder) selectStmt() {
 			b.sp()
 			b.lit(b.ident(c35Aliases))
 		}
+	} else {
+		b.odd = true
 	}
 	if b.r.Chance(35) {
 		b.sp()
@@ -394,7 +418,8 @@ func (b *c35Builder) selectStmt() {
 	}
 	// tail clauses in a random but mostly sensible order
 	order := []int{0, 1, 2, 3, 4, 5, 6}
-	if b.r.Chance(25) {
+	if b.r.Chance(10) {
+		b.odd = true
 		for i := range order {
 			j := b.r.Intn(i + 1)
 			order[i], order[j] = order[j], order[i]
@@ -542,7 +567,7 @@ var c35Soup = []string{"select", "from", "join", "left", "on", "where", "group b
 	"within", "scan", "full", "explain", "show", "topics", "partitions", "describe", "and", "=", ">=", "<=", "_partition", "_offset", "_ts", "desc",
 	"*", ",", "(", ")", ";", "t", "orders", "1", "-1", "o._key", "p._key", "ſelect", "laſt", "ſcan", "xſelect", "K", "Ⱥ", "İ", "\xff", "'", "as", "count(*)"}
 
-func c35GenText(r *vRand) (text string, variant string, kind string) {
+func c35GenText(r *vRand) (text string, variant string, kind string, odd bool) {
 	switch r.Intn(12) {
 	case 0: // keyword soup
 		n := r.Range(1, 14)
@@ -557,13 +582,13 @@ func c35GenText(r *vRand) (text string, variant string, kind string) {
 			}
 			sb.WriteString(w)
 		}
-		return sb.String(), "", "soup"
+		return sb.String(), "", "soup", true
 	case 1: // random bytes, biased to a printable prefix
 		b := r.Bytes(r.Range(0, 40))
 		if r.Bool() {
 			b = append([]byte([]string{"select ", "explain ", "select * from t order by ", "select * from a join b on "}[r.Intn(4)]), b...)
 		}
-		return string(b), "", "bytes"
+		return string(b), "", "bytes", true
 	}
 	b := &c35Builder{r: r, wild: r.Intn(4)}
 	b.statement()
@@ -588,10 +613,10 @@ func c35GenText(r *vRand) (text string, variant string, kind string) {
 				bs = bs[:i]
 			}
 		}
-		return string(bs), "", "mutated"
+		return string(bs), "", "mutated", true
 	}
 	variant = c35Join(b.segs, c35Recase(r))
-	return text, variant, kind
+	return text, variant, kind, b.odd
 }
 
 func c35StripRaw(q Query) Query {
@@ -618,7 +643,7 @@ func c35ErrStr(e error) string {
 }
 
 // c35Oracle evaluates the property's clauses on the real code; "" = holds.
-func c35Oracle(text, variant string) (key, what string) {
+func c35Oracle(text, variant string, odd bool) (key, what string) {
 	o := c35Parse(text)
 	if o.panicked {
 		return "parser-panic", fmt.Sprintf("Parse(%q) panicked: %s", text, o.panicMsg)
@@ -628,7 +653,7 @@ func c35Oracle(text, variant string) (key, what string) {
 		if v.panicked {
 			return "parser-panic", fmt.Sprintf("Parse(%q) panicked: %s", variant, v.panicMsg)
 		}
-		if c35ErrStr(o.err) != c35ErrStr(v.err) || !reflect.DeepEqual(c35StripRaw(o.q), c35StripRaw(v.q)) {
+		if !odd && (c35ErrStr(o.err) != c35ErrStr(v.err) || !reflect.DeepEqual(c35StripRaw(o.q), c35StripRaw(v.q))) {
 			return "keyword-case", fmt.Sprintf("Parse(%q) = %+v, %v but keyword-case variant Parse(%q) = %+v, %v", text, c35StripRaw(o.q), o.err, variant, c35StripRaw(v.q), v.err)
 		}
 	}
@@ -658,7 +683,7 @@ func TestVerifC35(t *testing.T) {
 		}
 		cs.Text, cs.VTxt = text, variant
 		rep.Sample(cs)
-		if key, what := c35Oracle(text, variant); key != "" {
+		if key, what := c35Oracle(text, variant, cs.Odd); key != "" {
 			shr := cs
 			if key == "parser-panic" {
 				bad := text
@@ -667,7 +692,7 @@ func TestVerifC35(t *testing.T) {
 				}
 				sb := vShrink([]byte(bad), func(b []byte) bool { return c35Parse(string(b)).panicked })
 				shr = c35Case{Q: sb, Text: string(sb)}
-				_, what = c35Oracle(string(sb), "")
+				_, what = c35Oracle(string(sb), "", true)
 			}
 			rep.Fail(key, key, what, shr)
 		}
@@ -704,11 +729,27 @@ func TestVerifC35(t *testing.T) {
 		for _, s := range corpus {
 			runOne(c35Case{Q: []byte(s)}, "corpus")
 		}
+		// keyword-case pairs of valid queries touching every (?i) expression of the parser
+		pairs := [][2]string{
+			{"select count(*) as n, min(amount), sum(o.amount) total, json_value(_value, '$.a') as a, json_query(_value, '$.b'), json_exists(o._value, '$.c') from orders o left join payments p on json_value(o._value, '$.id') = p._key where _partition = 1 and _offset >= 5 and _offset <= 9 group by _key, _partition order by _ts desc limit 10 last 1h tail 5 within 10m scan full;",
+				"SELECT COUNT(*) AS n, MIN(amount), SUM(o.amount) total, JSON_VALUE(_value, '$.a') AS a, JSON_QUERY(_value, '$.b'), JSON_EXISTS(o._value, '$.c') FROM orders o LEFT JOIN payments p ON JSON_VALUE(o._value, '$.id') = p._key WHERE _partition = 1 AND _offset >= 5 AND _offset <= 9 GROUP BY _key, _partition ORDER BY _ts DESC LIMIT 10 LAST 1h TAIL 5 WITHIN 10m SCAN FULL;"},
+			{"explain select avg(amount), max(_offset) from orders where _ts between '2024-01-01 00:00:00' and '2024-01-02 00:00:00' order by _ts asc",
+				"Explain Select Avg(amount), Max(_offset) From orders Where _ts Between '2024-01-01 00:00:00' And '2024-01-02 00:00:00' Order By _ts Asc"},
+			{"select _key from orders a join payments b on a._key = b._key where _ts >= 1700000000000 and _ts <= '2024-01-02 03:04:05'",
+				"sELECT _key fROM orders a jOIN payments b oN a._key = b._key wHERE _ts >= 1700000000000 aND _ts <= '2024-01-02 03:04:05'"},
+			{"show partitions from orders", "SHOW PARTITIONS FROM orders"}, {"show topics", "Show Topics;"}, {"describe orders", "DESCRIBE orders"},
+		}
+		for _, pr := range pairs {
+			runOne(c35Case{Q: []byte(pr[0]), V: []byte(pr[1])}, "corpus")
+		}
 		r := vNewRand(vSeed())
 		n := vN(220, 2600)
 		for i := 0; i < n; i++ {
-			text, variant, kind := c35GenText(r.Fork())
-			runOne(c35Case{Q: []byte(text), V: []byte(variant)}, kind)
+			text, variant, kind, odd := c35GenText(r.Fork())
+			if variant != "" && !odd {
+				rep.Hist("keyword-case-variant-checked")
+			}
+			runOne(c35Case{Q: []byte(text), V: []byte(variant), Odd: odd}, kind)
 		}
 	}
 	rep.Cases("C35", "From KS Require Import lib.Base model.SqlParse corr.SqlParseCorr.", "case", "check_case", coq, jsons)
